@@ -485,6 +485,43 @@ Qed.
 End SrcFamily.
 
 
+Lemma forallb_all (T : Type) (f : T -> bool) (l : seq T) : List.forallb f l = all f l.
+Proof. by elim: l => [|x l IH] //=; rewrite IH. Qed.
+
+Lemma fold_nth_iota (f : reward -> R) (rs : seq reward) :
+  List.fold_right Rplus 0 (List.map (fun i => f (nth RUnit rs i)) (iota 0 (size rs)))
+  = List.fold_right Rplus 0 (List.map f rs).
+Proof. by rewrite -[in RHS](mkseq_nth RUnit rs) /mkseq !L_map -map_comp. Qed.
+
+Section SrcSum.
+Variable expm : seq (seq R) -> seq (seq R).
+Hypothesis expm_sound : forall n A, wf n n A -> wf n n (expm A) /\ mx_of n n (expm A) = mexp (mx_of n n A).
+Variables (regf : seq (seq R) -> R) (n : nat) (Ss : seq (Q * seq (seq R))) (Slast : seq (seq R)) (alpha : seq R) (ts : seq Q).
+Hypothesis H0 : regf (List.hd (None, Slast) (all_epochs Ss Slast)).2 <> 0.
+Hypothesis H1 : List.Forall (fun x : Q * seq (seq R) => wf n n x.2) Ss.
+Hypothesis H2 : wf n n Slast.
+Hypothesis H5 : epochs_wf (seq (seq R)) 0%QQ Ss.
+Hypothesis H6 : List.Forall (fun t => (0 <= t)%QQ) ts.
+Let A := acc1 expm regf Ss Slast alpha ts.
+
+(* property C15: the mean of SumReward([r_1, .., r_m]) is the sum of the means of the r_i - translated rewards.py and _accumulate,
+   any demography *)
+Theorem source_sum_reward_mean (nn nl : nat) (rs : seq reward) (sts : seq state) :
+  size sts = n -> all (reward_ok nn) rs -> List.Forall (fun s => n_loci s = nl) sts ->
+  A [seq gen_reward_get OpsR nn nl (RSum rs) s | s <- sts]
+  = vsum (size ts) [seq A [seq gen_reward_get OpsR nn nl r s | s <- sts] | r <- rs].
+Proof.
+move=> ssz rok Hnl.
+have -> : [seq A [seq gen_reward_get OpsR nn nl r s | s <- sts] | r <- rs]
+        = [seq A [seq gen_reward_get OpsR nn nl (nth RUnit rs i) s | s <- sts] | i <- iota 0 (size rs)].
+  by rewrite -[in LHS](mkseq_nth RUnit rs) /mkseq -map_comp.
+apply: (@source_family_means_sum expm expm_sound regf n Ss Slast alpha ts H0 H1 H2 H5 H6 nn nl (RSum rs) (iota 0 (size rs)) (nth RUnit rs)) => //.
+- by apply/allP => i; rewrite mem_iota /= add0n => isz; exact: (all_nthP RUnit rok).
+- elim: (sts) => [|s l IH]; constructor => //.
+  by rewrite sum_reward_linear (fold_nth_iota (fun r => reward_get OpsR nn r s)).
+Qed.
+End SrcSum.
+
 Print Assumptions evalM_ur_linear.
 Print Assumptions source_first_moment_linear.
 Print Assumptions source_first_moment_sum.
@@ -497,3 +534,4 @@ Print Assumptions source_moment_slot_linear.
 Print Assumptions source_family_means_sum.
 Print Assumptions source_expected_sfs_sums_to_branch_length.
 Print Assumptions source_expected_folded_sfs_sums_to_branch_length.
+Print Assumptions source_sum_reward_mean.
